@@ -13,7 +13,7 @@ import (
 	"github.com/simpleiot/simpleiot/data"
 )
 
-// C15 case: "<ops>|<export id>|<n|p>|<a|b|r>" (r: imported at "root" of a fresh instance, replacing its root node): the ops build a tree under a per-case group G on instance A;
+// C15 case: "<ops>|<export id>|<n|p>|<a|b|r>[|d]" (r: imported at "root" of a fresh instance, replacing its root node): the ops build a tree under a per-case group G on instance A;
 // the node is exported with client.ExportNodes (YAML), and imported with client.ImportNodes under a fresh
 // group H on instance A or B, with new ids (n) or preserved ids (p).
 // observation: "err <kind>" or the imported subtree below H in pre-order,
@@ -142,6 +142,7 @@ func c15Run(c string) string {
 	prefix := fmt.Sprintf("k%d-", c15Cases)
 	f := strings.Split(strings.Fields(c)[0], "|")
 	ops, expID, mode, where := f[0], string(unhx(f[1])), f[2], f[3]
+	delAfterExport := len(f) > 4 && f[4] == "d" // every node below the exported one is deleted before the file is imported again (ids kept)
 	saved := c08Srv
 	c08Srv = c15A
 	defer func() { c08Srv = saved }()
@@ -191,6 +192,17 @@ func c15Run(c string) string {
 	y, err := client.ExportNodes(c15A.nc, c06ID(prefix, expID))
 	if err != nil {
 		return "err export"
+	}
+	if delAfterExport {
+		var below []c15Node
+		if err := c15Walk(c15A.nc, c06ID(prefix, expID), 0, &below); err != nil {
+			return "SETUP walk"
+		}
+		for _, b := range below {
+			if err := client.SendEdgePoints(c15A.nc, b.id, b.parent, data.Points{{Type: data.PointTypeTombstone, Value: 1, Time: time.Unix(0, 5000)}}, true); err != nil {
+				return "SETUP delete"
+			}
+		}
 	}
 	err = client.ImportNodes(target.nc, importAt, y, "imp", mode == "p")
 	retire := func() {
@@ -313,7 +325,12 @@ func c15Gen(r *rand.Rand, n int, tier string) []string {
 		if i%8 == 7 {
 			where = "r" // import target "root" on a fresh instance
 		}
-		out = append(out, strings.Join(ops, ";")+"|"+hxs(exp)+"|"+pick(r, []string{"n", "n", "p"})+"|"+where)
+		mode := pick(r, []string{"n", "n", "p"})
+		c := strings.Join(ops, ";") + "|" + hxs(exp) + "|" + mode + "|" + where
+		if mode == "p" && where == "a" && r.Intn(2) == 0 {
+			c += "|d" // restore over a deleted copy: the nodes below the exported one are deleted first
+		}
+		out = append(out, c)
 	}
 	return out
 }
